@@ -5,7 +5,7 @@
      remove-node / create / remove, overlapping names, at most one injected
      failure of a store or plugin step), schedules s:
        all threads finished after s -> Ref (final world).
-   It is refuted by three witnesses (the C22_refuted theorems); what holds instead is the
+   It is refuted by four witnesses (the C22_refuted theorems); what holds instead is the
    C22_partial theorems below.  This file contains only the property theorems. *)
 From Coq Require Import List String.
 From Verif Require Import Calcium.Refs Calcium.RefsProofs.
@@ -34,6 +34,15 @@ Theorem C22_refuted_removenode_fault :
   quiescent_bad W2 [(ORemoveNode "n", Some 3)] [0; 0; 0; 0; 0; 0; 0; 0].
 Proof. exact refuted_removenode_fault. Qed.
 Print Assumptions C22_refuted_removenode_fault.
+
+(* witness 4 (three operations; found by exploring triples in the model):
+   RemoveNode fetches the node before it takes the pod lock; a second RemoveNode
+   holding the stale record removes the plugin record of a concurrent re-AddNode *)
+Theorem C22_refuted_stale_removenode :
+  quiescent_bad W2 [(OAddNode "n" "p", None); (ORemoveNode "n", None); (ORemoveNode "n", None)]
+                [2; 1; 1; 1; 1; 1; 1; 0; 2; 2; 2; 2; 2; 0; 0].
+Proof. exact refuted_stale_removenode. Qed.
+Print Assumptions C22_refuted_stale_removenode.
 
 (* the decision procedure used below is sound for ALL schedules: if [explore]
    accepts, every run that ends with all threads finished has a good verdict *)
